@@ -1,9 +1,17 @@
 import MimeModel.Model.Detect
+import MimeModel.Lemmas.JsonBackC
 /-
   C09 — malformed JSON is not reported as JSON.
+
+  The reference is the relaxed grammar `Spec.J.doc false` (Spec/Json.lean): the RFC 8259
+  structure with exactly the three lexical leniencies the property names (liberal number
+  spelling, raw control bytes in strings, one trailing comma), written as an independent
+  recursive-descent recogniser that builds the syntax tree.  `Spec.J.viable b`: the
+  recogniser, run on `b`, either accepts or reports that the input ended inside the
+  document (outcome `more`).
 -/
 namespace Mime.C09
-open Mime Mime.Json
+open Mime Mime.Json Mime.Spec Mime.JsonLeaf Mime.JsonBack
 
 /-- an accepted input starts, after white space, with `{` or `[` -/
 theorem accepted_looks_like (cap : Nat) (raw : Bytes) (lim : Nat) (qs : List Gen.Json.Query) (w : Nat)
@@ -12,5 +20,142 @@ theorem accepted_looks_like (cap : Nat) (raw : Bytes) (lim : Nat) (qs : List Gen
   cases hl : looksLikeObjectOrArray raw with
   | true => rfl
   | false => simp [hl] at h
+
+theorem firstNonWs_of_looksLike (b : Bytes) (h : looksLikeObjectOrArray b = true) :
+    ∃ c, J.firstNonWs b = some c ∧ (c != 0x7B && c != 0x5B) = false := by
+  induction b with
+  | nil => simp [looksLikeObjectOrArray] at h
+  | cons x xs ih =>
+    simp only [looksLikeObjectOrArray, isSpace_eq_ws] at h
+    simp only [J.firstNonWs, J.skipWs]
+    split at h
+    · rename_i hw
+      simp only [hw, ↓reduceIte]
+      exact ih h
+    · rename_i hw
+      simp only [hw, Bool.false_eq_true, ↓reduceIte, List.head?_cons, Option.some.injEq, exists_eq_left']
+      simp only [Bool.or_eq_true, beq_iff_eq] at h
+      rcases h with rfl | rfl <;> decide
+
+/-- what the helper's verdict says about the scanner's run -/
+theorem helper_inv (cap : Nat) (raw : Bytes) (lim : Nat) (qs : List Gen.Json.Query) (w : Nat)
+    (h : jsonHelperCap cap raw lim qs w = true) :
+    looksLikeObjectOrArray raw = true ∧
+    let run := consumeAny qs cap (fuelFor raw) 0 raw PState.fresh.reset
+    (if lim == 0 || decide (raw.length < lim)
+     then (match run.1 with | some rest => raw.length - rest.length | none => 0) = raw.length
+     else run.2.ib = raw.length) := by
+  have hl := accepted_looks_like cap raw lim qs w h
+  refine ⟨hl, ?_⟩
+  unfold jsonHelperCap parseWith at h
+  simp only [hl, Bool.not_true, Bool.false_eq_true, ↓reduceIte] at h
+  generalize consumeAny qs cap (fuelFor raw) 0 raw PState.fresh.reset = run at h ⊢
+  obtain ⟨o, s'⟩ := run
+  simp only at h ⊢
+  split at h
+  · cases h
+  · split at h
+    · rename_i hw
+      rw [if_pos hw]
+      cases o <;> simpa using h
+    · rename_i hw
+      rw [if_neg hw]
+      simp only [Bool.and_eq_true, beq_iff_eq] at h
+      exact h.1
+
+/-- **C09 (whole)**: a positive verdict on a fully examined input (limit 0, or shorter than
+    the limit) implies the input is one well-formed object or array of the relaxed grammar,
+    with nothing but white space around it.  Any query, any recursion cap. -/
+theorem sound_whole (cap : Nat) (raw : Bytes) (lim : Nat) (qs : List Gen.Json.Query) (w : Nat)
+    (h : jsonHelperCap cap raw lim qs w = true) (hw : lim = 0 ∨ raw.length < lim) :
+    J.relaxedDoc raw = true := by
+  obtain ⟨hl, hrun⟩ := helper_inv cap raw lim qs w h
+  simp only at hrun
+  have hcond : (lim == 0 || decide (raw.length < lim)) = true := by
+    rcases hw with h0 | h1
+    · simp [h0]
+    · simp [h1]
+  rw [if_pos hcond] at hrun
+  have hne : raw ≠ [] := by
+    intro e; subst e; simp [looksLikeObjectOrArray] at hl
+  have hpos : 0 < raw.length := List.length_pos_iff.mpr hne
+  have hb := (back_all qs cap (fuelFor raw)).1 0 raw PState.fresh.reset (by simp [fuelFor])
+  generalize consumeAny qs cap (fuelFor raw) 0 raw PState.fresh.reset = run at hrun hb
+  obtain ⟨o, s'⟩ := run
+  cases o with
+  | none => simp only at hrun; omega
+  | some rest =>
+    simp only at hrun
+    obtain ⟨⟨v, hv⟩, _, h3⟩ := hb
+    have hrest : rest = [] := List.eq_nil_of_length_eq_zero (by omega)
+    subst hrest
+    obtain ⟨c, hc1, hc2⟩ := firstNonWs_of_looksLike raw hl
+    unfold J.relaxedDoc J.doc
+    simp only [hc1, hc2, Bool.false_eq_true, ↓reduceIte]
+    have hff : J.fuelFor raw = fuelFor raw := rfl
+    rw [hff]
+    rcases valueWs_cases (fuelFor raw) raw with ⟨v', r0, e1, e2⟩ | ⟨e1, e2⟩ | ⟨e1, e2⟩
+    · rw [e2] at hv
+      simp only [J.R.ok.injEq] at hv
+      rw [e1]
+      simp [hv.2]
+    · rw [e2] at hv; cases hv
+    · rw [e2] at hv; cases hv
+
+/-- **C09 (truncated)**: a positive verdict on a prefix (the input is at least as long as the
+    limit) implies the examined bytes are viable: the relaxed recogniser accepts them or runs
+    out of input inside the document -/
+theorem sound_truncated (cap : Nat) (raw : Bytes) (lim : Nat) (qs : List Gen.Json.Query) (w : Nat)
+    (h : jsonHelperCap cap raw lim qs w = true) (ht : lim ≠ 0) (hlen : lim ≤ raw.length) :
+    J.viable raw = true := by
+  obtain ⟨hl, hrun⟩ := helper_inv cap raw lim qs w h
+  simp only at hrun
+  have hcond : ¬ (lim == 0 || decide (raw.length < lim)) = true := by
+    simp; omega
+  rw [if_neg hcond] at hrun
+  have hb := (back_all qs cap (fuelFor raw)).1 0 raw PState.fresh.reset (by simp [fuelFor])
+  generalize consumeAny qs cap (fuelFor raw) 0 raw PState.fresh.reset = run at hrun hb
+  obtain ⟨o, s'⟩ := run
+  simp only at hrun
+  obtain ⟨c, hc1, hc2⟩ := firstNonWs_of_looksLike raw hl
+  unfold J.viable
+  simp only [hc1, hc2, Bool.false_eq_true, ↓reduceIte]
+  have hff : J.fuelFor raw = fuelFor raw := rfl
+  rw [hff]
+  have h0 : PState.fresh.reset.ib = 0 := rfl
+  cases o with
+  | none =>
+    obtain ⟨_, h2⟩ := hb
+    have := h2 (by rw [hrun, h0]; omega)
+    rcases valueWs_cases (fuelFor raw) raw with ⟨v', r0, e1, e2⟩ | ⟨e1, e2⟩ | ⟨e1, e2⟩
+    · rw [e2] at this; cases this
+    · rw [e1]
+    · rw [e2] at this; cases this
+  | some rest =>
+    obtain ⟨⟨v, hv⟩, h2, h3⟩ := hb
+    have hrest : rest = [] := List.eq_nil_of_length_eq_zero (by rw [hrun, h0] at h2; omega)
+    subst hrest
+    rcases valueWs_cases (fuelFor raw) raw with ⟨v', r0, e1, e2⟩ | ⟨e1, e2⟩ | ⟨e1, e2⟩
+    · rw [e2] at hv
+      simp only [J.R.ok.injEq] at hv
+      rw [e1]
+      simp [hv.2]
+    · rw [e2] at hv; cases hv
+    · rw [e2] at hv; cases hv
+
+theorem jsonHelper_eq (raw : Bytes) (lim : Nat) (qs : List Gen.Json.Query) (w : Nat) :
+    jsonHelper raw lim qs w = jsonHelperCap Gen.Json.maxRecursion raw lim qs w := rfl
+
+/-- **C09** for the four detectors of the JSON family as they are wired in text.go -/
+theorem family_sound (raw : Bytes) (lim : Nat) (qs : List Gen.Json.Query) (w : Nat)
+    (h : jsonHelper raw lim qs w = true) :
+    (lim = 0 ∨ raw.length < lim → J.relaxedDoc raw = true) ∧
+    (lim ≠ 0 → lim ≤ raw.length → J.viable raw = true) := by
+  rw [jsonHelper_eq] at h
+  exact ⟨sound_whole _ raw lim qs w h, sound_truncated _ raw lim qs w h⟩
+
+/- non-vacuity: an accepted relaxed document that is not RFC 8259 (trailing comma, liberal number) -/
+example : jsonHelper [0x5B, 0x31, 0x2E, 0x2C, 0x5D] 0 Gen.Json.q_json (tokObject ||| tokArray) = true := by decide
+example : J.strictDoc [0x5B, 0x31, 0x2E, 0x2C, 0x5D] = false := by decide
 
 end Mime.C09
